@@ -211,7 +211,7 @@ pub fn c17(ctx: &mut Ctx) {
                 let (s, a) = match r.below(3) {
                     0 => (format!("//{}", l), xp::Expr::Path(xp::Start::Root, vec![step(xp::Test::Name(Some("c0".into()), l.clone()), xp::Axis::Child, true)])),
                     1 => (format!("count(//{})", l), xp::Expr::Func("count".into(), vec![xp::Expr::Path(xp::Start::Root, vec![step(xp::Test::Name(Some("c0".into()), l.clone()), xp::Axis::Child, true)])])),
-                    _ => (format!("//{}/@*", l), xp::Expr::Path(xp::Start::Root, vec![step(xp::Test::Name(Some("c0".into()), l.clone()), xp::Axis::Child, true), step(xp::Test::Any, xp::Axis::Attribute, false)])),
+                    _ => (format!("//{}/text()", l), xp::Expr::Path(xp::Start::Root, vec![step(xp::Test::Name(Some("c0".into()), l.clone()), xp::Axis::Child, true), step(xp::Test::Text, xp::Axis::Child, false)])),
                 };
                 default_ast = Some(a);
                 ("by-default-namespace", s, vec![("c0".to_string(), u)])
@@ -220,7 +220,7 @@ pub fn c17(ctx: &mut Ctx) {
         // every third case takes its path from the expression generator of C05 (any node-set or scalar expression outside the
         // zones of recorded findings: the reference must give the same answer under every bug-compatible switch)
         let mut generated: Option<xp::Expr> = None;
-        let (sel_kind, expr, ns) = if i % 3 == 2 {
+        let (sel_kind, expr, ns) = if i % 3 == 2 && default_setns.is_none() {
             let mut dns: Vec<(String, String)> = vec![];
             fn walk(e: &Elem, ns: &mut Vec<(String, String)>) { for (p, u) in &e.nsdecls { if let Some(p) = p { if !u.is_empty() && !u.contains(' ') && !ns.iter().any(|x| &x.0 == p) { ns.push((p.clone(), u.clone())); } } } for c in &e.children { if let Node::Elem(x) = c { walk(x, ns); } } }
             walk(&doc.root, &mut dns);
@@ -238,7 +238,7 @@ pub fn c17(ctx: &mut Ctx) {
             match found { Some(e) => { let s = xp::render(&e, xp::Spelling::abbreviated(), None); generated = Some(e); ("generated", s, dns) } None => (sel_kind, expr, ns) }
         } else { (sel_kind, expr, ns) };
         // every seventh case: one reverse-axis step taken from a single node (the records must still come in document order)
-        let (sel_kind, expr, ns) = if generated.is_none() && i % 7 == 5 {
+        let (sel_kind, expr, ns) = if generated.is_none() && default_setns.is_none() && i % 7 == 5 {
             use xp::{Axis, Expr, Start, Step, Test};
             let k = r.range(1, nelems.max(1));
             let inner = Expr::Path(Start::Root, vec![Step { axis: Axis::Child, test: Test::Any, preds: vec![], dslash: true }]);
